@@ -483,7 +483,13 @@ def _replicate(n, x):
     return bytes([x]) * n
 
 
+def _int64(k):  # the reference implementation takes these arguments as Int (pinned by the conformance tests)
+    if not -2**63 <= k < 2**63:
+        raise Fail
+
+
 def _shift(b, k):
+    _int64(k)
     nbits = 8 * len(b)
     if not b or abs(k) >= nbits:
         return bytes(len(b))
@@ -493,6 +499,7 @@ def _shift(b, k):
 
 
 def _rotate(b, k):
+    _int64(k)
     nbits = 8 * len(b)
     if not b:
         return b
@@ -543,8 +550,8 @@ MODELLED = {
     "readBit": ([_B, _I], _O, True, _read_bit, None),
     "writeBits": ([_B, ("list", _I), _O], _B, True, _write_bits, None),
     "replicateByte": ([_I, _I], _B, True, _replicate, None),
-    "shiftByteString": ([_B, _I], _B, False, _shift, None),
-    "rotateByteString": ([_B, _I], _B, False, _rotate, None),
+    "shiftByteString": ([_B, _I], _B, True, _shift, None),
+    "rotateByteString": ([_B, _I], _B, True, _rotate, None),
     "countSetBits": ([_B], _I, False, lambda b: bin(int.from_bytes(b, "big")).count("1"), None),
     "findFirstSetBit": ([_B], _I, False, _first_set, None),
     "expModInteger": ([_I, _I, _I], _I, True, _expmod, None),
